@@ -155,6 +155,10 @@ impl<'l> Uf2Write<'l>
 	{
 		if !block.is_empty()
 		{
+			if block.len() > self.block_size
+			{
+				return Err(WriteError::Overflow{need: block.len(), have: self.block_size});
+			}
 			if block.len() % self.align != 0
 			{
 				return Err(WriteError::Alignment{len: block.len(), align: block.len() % self.align});
